@@ -313,6 +313,12 @@ public:
                 J.attribute("tmp", 1);
             if (X->isListInitialization())
                 J.attribute("list", 1);
+            if (X->requiresZeroInitialization())
+                J.attribute("zi", 1);
+            if (X->getConstructor()->isTrivial()
+                || (X->getConstructor()->isImplicit()
+                    && X->getConstructor()->isDefaultConstructor()))
+                J.attribute("implicit", 1);
             argsRange(X->arg_begin(), X->arg_end());
             return;
         }
